@@ -136,10 +136,15 @@ fn calc_max_day_cost_per_sec(all_deltas: &Vec<TxDelta>) -> MaxDayCosts {
 
     // Go through each day and populate the ACB for every seen security in each MaxSingleDayCosts
     let mut last_acbs = HashMap::<Security, GreaterEqualZeroDecimal>::new();
+    // Each day's total is accumulated as the securities are visited, and Decimal
+    // addition can round in the last digit, so visit them in a fixed order rather
+    // than in the HashSet's.
+    let mut sorted_securities: Vec<&Security> = security_set.iter().collect();
+    sorted_securities.sort();
     for day in sorted_days {
         let max_costs = max_costs_by_day.get_mut(&day).unwrap();
         let closing_costs = closing_costs_by_day.get(&day);
-        for sec in &security_set {
+        for sec in sorted_securities.iter().copied() {
             match closing_costs.and_then(|c| c.get(sec)) {
                 Some(closing_cost) => {
                     // Had deltas today. The day's max is already recorded.
